@@ -59,6 +59,10 @@ def classify(diags, meta):
         msg = d.get('message', '')
         if msg.startswith('aborting due to'):
             continue
+        if 'must have a decreases clause' in msg or 'not supported' in msg or 'not yet support' in msg:
+            # the extracted text contains a construct (e.g. a new loop) for which no contract exists
+            fatal.append(d)
+            continue
         if d.get('code'):
             # rustc error (E0xxx): the generated text does not compile => undecided, not a failure
             fatal.append(d)
